@@ -82,6 +82,23 @@ fn same_oracle(c: &SameCase, st: &mut Stats) -> Result<(), String> {
   let tr = &c.tr;
   let t = tr.t.max(1);
   let n = c.aux.len().max(t as usize + 1);
+  // the measurement wrapper means the bytes it was made from, whichever constructor made it:
+  // the generator built from `new(bytes)` and the one the helper builds (From<&str> for about
+  // half of the UTF-8 measurements) derive the same randomness
+  {
+    let sm = sta_rs::SingleMeasurement::new(&tr.m);
+    if sm.as_slice() != &tr.m[..] || sm.as_vec() != tr.m.0 || sm.byte_len() != tr.m.len() || sm.is_empty() != tr.m.is_empty() {
+      return Err(format!("SingleMeasurement accessors disagree with the bytes it was made from: {}", hx(&tr.m)));
+    }
+    let via_new = sta_rs::MessageGenerator::new(sm, t, &tr.e);
+    let via_helper = starx::mg(&tr.m, t, &tr.e);
+    if starx::local_rnd(&via_new) != starx::local_rnd(&via_helper) {
+      return Err(format!("SingleMeasurement::new(bytes) and SingleMeasurement::from(str) of the same bytes give different client randomness: {}", hx(&tr.m)));
+    }
+    if std::str::from_utf8(&tr.m).is_ok() {
+      st.class("measurement-is-utf8(constructor routes compared)");
+    }
+  }
   let mut tags = Vec::new();
   let mut keys = Vec::new();
   let mut rnds = Vec::new();
